@@ -4,3 +4,4 @@ CONSTANTS
   Vals <- ValsQuick
 INVARIANT Identities
 INVARIANT GateTable
+INVARIANT NPrimeRegimesCovered
